@@ -249,6 +249,13 @@ pub fn plan(property: &str, tier: Tier) -> Option<Plan> {
 pub fn resolve_units(job: &JobDef, tier: Tier) -> usize {
     match job.world {
         "graph" => crate::graph::driver::units(job, tier),
+        "maps" => crate::maps::units(job, tier),
+        "pkmaps" => crate::pkmaps::units(job, tier),
+        "expert" => crate::expert::units(job, tier),
+        "limits" => crate::limits::units(job, tier),
+        "memo" => crate::memo::units(job, tier),
+        "vars" => crate::vars::units(job, tier),
+        "drops" => crate::drops::units(job, tier),
         _ => 0,
     }
 }
@@ -256,6 +263,13 @@ pub fn resolve_units(job: &JobDef, tier: Tier) -> usize {
 pub fn run_unit(job: &JobDef, job_ix: u32, unit: usize, tier: Tier, deadline: Option<Instant>, marker: &Marker, stats: &mut Stats) {
     match job.world {
         "graph" => crate::graph::driver::run_unit(job, job_ix, unit, tier, deadline, marker, stats),
+        "maps" => crate::maps::run_unit(job, job_ix, unit, tier, deadline, marker, stats),
+        "pkmaps" => crate::pkmaps::run_unit(job, job_ix, unit, tier, deadline, marker, stats),
+        "expert" => crate::expert::run_unit(job, job_ix, unit, tier, deadline, marker, stats),
+        "limits" => crate::limits::run_unit(job, job_ix, unit, tier, deadline, marker, stats),
+        "memo" => crate::memo::run_unit(job, job_ix, unit, tier, deadline, marker, stats),
+        "vars" => crate::vars::run_unit(job, job_ix, unit, tier, deadline, marker, stats),
+        "drops" => crate::drops::run_unit(job, job_ix, unit, tier, deadline, marker, stats),
         w => stats.machinery_errors.push(format!("unknown world {w}")),
     }
 }
@@ -265,6 +279,13 @@ pub fn run_unit(job: &JobDef, job_ix: u32, unit: usize, tier: Tier, deadline: Op
 pub fn replay(world: &str, cfg: &Cfg, prog: &serde_json::Value, history: &[serde_json::Value]) -> Result<(Vec<(usize, Violation)>, Vec<String>, u64), String> {
     match world {
         "graph" => crate::graph::driver::replay(cfg, prog, history),
+        "maps" => crate::maps::replay(cfg, prog, history),
+        "pkmaps" => crate::pkmaps::replay(cfg, prog, history),
+        "expert" => crate::expert::replay(cfg, prog, history),
+        "limits" => crate::limits::replay(cfg, prog, history),
+        "memo" => crate::memo::replay(cfg, prog, history),
+        "vars" => crate::vars::replay(cfg, prog, history),
+        "drops" => crate::drops::replay(cfg, prog, history),
         w => Err(format!("unknown world {w}")),
     }
 }
@@ -273,6 +294,13 @@ pub fn replay(world: &str, cfg: &Cfg, prog: &serde_json::Value, history: &[serde
 pub fn history_from_choices(job: &JobDef, unit: usize, tier: Tier, choices: &[u16]) -> Option<(serde_json::Value, Vec<serde_json::Value>)> {
     match job.world {
         "graph" => crate::graph::driver::history_from_choices(job, unit, tier, choices),
+        "maps" => crate::maps::history_from_choices(job, unit, tier, choices),
+        "pkmaps" => crate::pkmaps::history_from_choices(job, unit, tier, choices),
+        "expert" => crate::expert::history_from_choices(job, unit, tier, choices),
+        "limits" => crate::limits::history_from_choices(job, unit, tier, choices),
+        "memo" => crate::memo::history_from_choices(job, unit, tier, choices),
+        "vars" => crate::vars::history_from_choices(job, unit, tier, choices),
+        "drops" => crate::drops::history_from_choices(job, unit, tier, choices),
         _ => None,
     }
 }
